@@ -271,11 +271,13 @@ impl<F: Write + Seek> MiniAllocator<F> {
         let minifat_entries_per_sector = self.directory.sector_len() / 4;
         if self.minifat_start_sector == consts::END_OF_CHAIN {
             debug_assert!(self.minifat.is_empty());
-            self.minifat_start_sector =
-                self.directory.begin_chain(SectorInit::Fat)?;
+            let start = self.directory.begin_chain(SectorInit::Fat)?;
             let mut header = self.directory.seek_within_header(60)?;
-            header.write_le_u32(self.minifat_start_sector)?;
+            header.write_le_u32(start)?;
             header.write_le_u32(1)?;
+            // Only now: if writing the header failed, a retry must not
+            // believe that the file already records the MiniFAT.
+            self.minifat_start_sector = start;
         } else if self.minifat.len() % minifat_entries_per_sector == 0 {
             // The MiniFAT chain never shrinks, so it may already have room
             // for this entry even though the in-memory MiniFAT was trimmed.
@@ -293,9 +295,11 @@ impl<F: Write + Seek> MiniAllocator<F> {
             }
         }
         // Add a new mini sector to the end of the mini stream and return it.
+        // Grow the mini stream first: if that fails, the MiniFAT must not
+        // already describe a mini sector that the mini stream does not have.
         let new_mini_sector = self.minifat.len() as u32;
-        self.set_minifat(new_mini_sector, value)?;
         self.append_mini_sector()?;
+        self.set_minifat(new_mini_sector, value)?;
         Ok(new_mini_sector)
     }
 
